@@ -209,7 +209,8 @@ class Repo:
 
 # ---------------------------------------------------------------- generators (all randomness from rng)
 
-NAMES = [b"a", b"a.b", b"a-b", b"a0", b"ab", b"b", b"c", b"d", b"e.txt", b"Z", b"_", b"lib", b"src", b"a b", b"x"]
+NAMES = [b"a", b"a.b", b"a-b", b"a0", b"ab", b"b", b"c", b"d", b"e.txt", b"Z", b"_", b"lib", b"src", b"a b", b"x",
+         b'a"b', "\u00fc".encode(), b"trail ", b"-dash"]
 WORDS = [b"alpha", b"beta", b"gamma", b"delta", b"", b"x", b"}", b"return", b"  foo();", b"end"]
 FAKE_COMMITS = ["%040x" % (0x1234567890abcdef * (i + 3) % (1 << 160)) for i in range(3)]
 
